@@ -3,6 +3,7 @@ import DvidModel.Props.C09
 import DvidModel.Props.C15
 import DvidModel.Props.C04
 import DvidModel.Model.Rle
+import DvidModel.Gen.Fixes
 /-
   C20 — No request can crash the server; malformed ones are rejected harmlessly.
 
@@ -243,5 +244,8 @@ theorem reader_allocation_bounded (b : Bytes) :
 /-- the other byte-level parsers that requests reach are total as well (proved in their own files) -/
 theorem envelope_total (cd : Dvid.Serialize.Codecs) (s : Bytes) (u : Bool) : Dvid.Serialize.deserializeData cd s u ≠ .panic :=
   Dvid.Props.C15.deser_total cd s u
+
+/-- the repaired shape of the single-block raw read is present: an absent block is label 0, not a nil dereference -/
+theorem repaired_shape_present : Gen.rawBlockNilIsBackground = true := by decide
 
 end Dvid.Props.C20
